@@ -204,13 +204,18 @@ PROPS = {
         min_obligations=40,
         replay_family="c06",
         bounded=[dict(family="c06", what="same bytes through &str, &[u8] and io::Read (chunk sizes 1/2/3/64, Interrupted every 2nd/3rd call) give the same values or the same "
-                                         "error category and kind - covers the string / character scanners whose content equality across sources is not proved; a hard read error "
+                                         "error category and kind - end-to-end complement of the proofs (one-shot entry points, option defaults per source kind, read-error kinds); a hard read error "
                                          "injected at every offset yields an I/O error or the already determined outcome",
                       bound="46 texts (symbols, strings with escapes, chars, numbers, comments, nested and truncated forms) x 2 option sets x 5 read schedules; error injection at every offset x 2 schedules")],
         explanation="The three sources (SliceRead, StrRead, IoRead over LineColIterator) are extracted from /repo and each verified against ONE shared "
                     "contract (trait ReadBase/Read restated with specs): next/peek/discard are exact functions of the unread bytes `rest()`, with the "
                     "protocol `discard only after a successful peek` (ghost `peeked`) enforced at all 40 discard sites; the three symbol scanners all satisfy "
-                    "sym_result; the parser is generic code verified once against that contract, so it cannot distinguish sources except through it. "
+                    "sym_result; the separately written STRING scanners are verified against ONE functional specification each - sp_r6rs_str (R6RS literals: content, every escape "
+                    "incl. \\x<hex>;, end position) and sp_elisp_str (Emacs Lisp literals: content, all escape forms, the unibyte/multibyte decision, end position): "
+                    "SliceRead::parse_r6rs_str_bytes (checked and unchecked instance), IoRead::parse_r6rs_str_bytes, SliceRead::parse_elisp_str_bytes, IoRead::parse_elisp_str, "
+                    "parse_r6rs_escape, parse_elisp_escape and the numeric escape decoders, with the clause on the trait methods Read::parse_r6rs_str / parse_elisp_str - so all "
+                    "three sources yield the same string for the same bytes, for every input; characters are read by generic code shared by all sources; "
+                    "the parser is generic code verified once against that contract, so it cannot distinguish sources except through it. "
                     "Read errors: a ghost flag `failed()` is raised by the stream model when the underlying iterator yields Err; every function that touches "
                     "the source carries io_ok(result, failed_before, failed_after): a failure raised during the call makes the call return Err, and an "
                     "I/O-category error is only ever produced when the source failed - so a read failure is never turned into a value or into end of input, "
@@ -218,8 +223,7 @@ PROPS = {
         assumptions=[
             "std::io::Bytes<R> (splitting into read calls, retry on Interrupted) is std code: modelled by trait ByteIter (prophetic `ahead`, `gone`, `broken`), "
             "ASSUMED: an Err item delivers no byte and loses none, None is only reported when nothing is ahead, fewer than usize::MAX bytes are delivered",
-            "the string / character scanners of the three sources carry the shared safety+io_ok contract only; that the slice and stream versions decode the "
-            "same string CONTENT is not proved (bounded stand-in: replay family c06 compares all three sources on a corpus; never counted as proved)",
+            "scalar_utf8(n) is DEFINED as vstd's encode_utf8 of the char with code n (char::encode_utf8 / char::from_u32 carry assumed std specifications)",
             "IoRead is verified with `R` standing for io::Bytes<R> (struct field type rewritten), `reader.bytes()` dropped from IoRead::new",
         ],
         trusted=STD_TRUST,
